@@ -583,11 +583,19 @@ def suite_cycle(ctx, core):
             masks = c02.interior_masks(shp)
             c['s'] = tuple(np.where(mk, a, Q(0)) for a, mk in zip(Ae, masks))
         cases.append((c, cfg, fixed))
+    # the real solver first: the number of cycles it actually runs (it stops
+    # early on divergence / stagnation) is an input of the model (as in C05)
+    reals = []
+    for c, cfg, _ in cases:
+        got_it = real_multigrid(c, cfg)
+        cfg['ncyc_asked'] = cfg['ncyc']
+        cfg['ncyc'] = max(1, int(got_it[1]))
+        reals.append(got_it)
     outs = common.run_driver([cycle_line(c, cfg) for c, cfg, _ in cases],
                              timeout=1500, jobs=min(8, len(cases)))
     bad, singular = [], 0
     worst = 0.0
-    for (c, cfg, fixed), out in zip(cases, outs):
+    for (c, cfg, fixed), out, (got, it) in zip(cases, outs, reals):
         tag = (c['shape'], cfg['cycle'], cfg['sc'], cfg['lr'], cfg['clevel'],
                tuple(cfg['nus']), cfg['ncyc'], c['alias'], c['cplx'], fixed)
         flag, fld = parse_field(out)
@@ -597,12 +605,11 @@ def suite_cycle(ctx, core):
         if flag == 'fail':
             singular += 1
             continue
-        got, it = real_multigrid(c, cfg)
         exp = np.array([complex(v) for comp in fld for v in comp])
         scale = max(float(np.max(np.abs(exp))), 1e-300)
         d = float(np.max(np.abs(got-exp)))/scale
         worst = max(worst, d)
-        if it != cfg['ncyc'] or not d <= 1e-9:
+        if it < 1 or it > cfg['ncyc_asked'] or not d <= 1e-9:
             bad.append(('cycle', tag, d, it))
         if fixed:
             e0 = np.concatenate([np.array([v for v in a.ravel('F')],
